@@ -281,7 +281,9 @@ func SSH1PrivateKey(info Info, data []byte) (Info, error) {
 	info.Description = "SSH v1 key"
 
 	priv, comment, err := ssh1.ParsePrivateKey(data, []byte(""))
-	if errors.Is(err, ssh1.ErrCorrupted) && priv != nil && data[len(ssh1.Header)] != 0 {
+	// a key has been read: the file has its fixed fields, the first is the cipher type (0: none)
+	encrypted := priv != nil && data[len(ssh1.Header)] != 0
+	if errors.Is(err, ssh1.ErrCorrupted) && encrypted {
 		// The private half is encrypted and no passphrase is available here; the public
 		// half (modulus, exponent, comment) is stored in the clear and has been read.
 		info.Description = "SSH v1 key (encrypted)"
@@ -292,6 +294,11 @@ func SSH1PrivateKey(info Info, data []byte) (Info, error) {
 		return info, fmt.Errorf("ssh1.ParsePrivateKey: %w", err)
 	}
 
+	if encrypted {
+		// cipher type 3 (3DES) under the empty passphrase, or a private half that reads as
+		// one without having been decrypted: the file says it is encrypted
+		info.Description = "SSH v1 key (encrypted)"
+	}
 	info.Attributes = ssh1PublicKeyAttributes(priv.Public(), comment)
 
 	return info, nil
